@@ -3,6 +3,7 @@
 package main
 
 import (
+	bxhledger "github.com/meshplus/bitxhub/internal/ledger"
 	ethtypes "github.com/meshplus/eth-kit/types"
 	"crypto/sha256"
 	"encoding/hex"
@@ -850,8 +851,15 @@ func (e *execEngine) blockAt(at uint64, ws []string) string {
 			// the very same transaction once more (same bytes, same hash): a block may carry a transaction an earlier block
 			// carried already — the executor does not look at nonces of BitXHub transactions
 			k, err := strconv.Atoi(t[1])
-			if err != nil || k < 0 || k >= len(e.txLog) {
+			if err != nil || k < 0 || k >= len(e.txLog)+len(txs) {
 				return "bad-op again"
+			}
+			if k >= len(e.txLog) {
+				// a transaction of this very block (the log is extended when the block is complete)
+				j := k - len(e.txLog)
+				txs = append(txs, copyTxs([]pb.Transaction{txs[j]})[0])
+				local = append(local, local[j])
+				continue
 			}
 			txs = append(txs, copyTxs([]pb.Transaction{e.txLog[k]})[0])
 			local = append(local, e.txLocal[k])
@@ -971,8 +979,13 @@ func blockObs(n *node, h uint64, txs []pb.Transaction) string {
 		return "err getblock " + err.Error()
 	}
 	var rc, gas []string
-	for _, tx := range txs {
+	// receipts by position (the stored list of the height); the transaction-hash index names one position per hash only
+	stored, _ := bxhledger.VerifReceiptsAt(n.ldg.ChainLedger, h)
+	for i, tx := range txs {
 		r, err := n.ldg.GetReceipt(tx.GetHash())
+		if len(stored) == len(txs) {
+			r, err = stored[i], nil
+		}
 		if err != nil {
 			rc = append(rc, "noreceipt")
 			gas = append(gas, "-")
@@ -1029,9 +1042,12 @@ func blockObs(n *node, h uint64, txs []pb.Transaction) string {
 	if full, err := n.ldg.GetBlock(h, true); err == nil && full.Transactions != nil {
 		var tl, rl [][]byte
 		okRc := true
-		for _, tx := range full.Transactions.Transactions {
+		for i, tx := range full.Transactions.Transactions {
 			tl = append(tl, tx.GetHash().Bytes())
 			r, err := n.ldg.GetReceipt(tx.GetHash())
+			if len(stored) == len(full.Transactions.Transactions) {
+				r, err = stored[i], nil // the stored list itself (a hash that occurs twice in the block has one index entry)
+			}
 			if err != nil {
 				okRc = false
 				break
